@@ -245,6 +245,10 @@ var targets = []target{
 		funs:    map[string]int{"c.deflater.Compress": 1},
 		oracles: map[string]string{"internal.AlphabetNumeric.Uint32()": "maskNum"},
 		doc:     "compressData: which dictionary the compressor gets (none for a broadcast frame), the header for the compressed size, masking and back-fill; deflater.Compress is a function parameter (payload, buffer, dictionary -> new buffer, error)"},
+	{pkg: "gws", fn: "deflater.initialize", lean: "deflater_initialize_window",
+		from: "windowBits :=", to: "return c",
+		freeStmt: map[string][]string{"flate.NewWriter": nil, "flate.NewWriterWindow": nil},
+		doc:      "which compressor a connection's deflater is built with: the library's default 32 KiB window only for 15 window bits, otherwise a compressor limited to 2^bits (the constructor calls are left uninterpreted: their arguments are what matters)"},
 	{pkg: "gws", fn: "deflater.Compress", lean: "deflater_Compress_stripTail",
 		from: "if n := dst.Len(); n >= 4", to: "return nil",
 		doc: "the removal of the sync-flush trailer 00 00 ff ff from the compressor's output (RFC 7692 7.2.1)"},
@@ -415,6 +419,14 @@ func isBufio(t types.Type) bool {
 	}
 	n, ok := t.(*types.Named)
 	return ok && n.Obj().Name() == "Reader" && n.Obj().Pkg() != nil && n.Obj().Pkg().Path() == "bufio"
+}
+
+func isStructType(t types.Type) bool {
+	if pt, ok := t.Underlying().(*types.Pointer); ok {
+		t = pt.Elem()
+	}
+	_, ok := t.Underlying().(*types.Struct)
+	return ok
 }
 
 func isPayload(t types.Type) bool { return strings.HasSuffix(t.String(), "internal.Payload") }
@@ -1278,6 +1290,21 @@ func hasReturn(n ast.Node) bool {
 	return found
 }
 
+// hasFreeStmt: n contains a call that is left uninterpreted in statement position (it takes the rest of the function as
+// its continuation, so an enclosing `if` has to duplicate that rest into its branches)
+func (f *fn) hasFreeStmt(n ast.Node) bool {
+	found := false
+	ast.Inspect(n, func(x ast.Node) bool {
+		if c, ok := x.(*ast.CallExpr); ok {
+			if _, ok := f.t.freeStmt[strings.Join(strings.Fields(f.src(c.Fun)), "")]; ok {
+				found = true
+			}
+		}
+		return true
+	})
+	return found
+}
+
 func (f *fn) flush(sb *strings.Builder) {
 	for _, l := range f.pre {
 		sb.WriteString(l + "\n")
@@ -1349,6 +1376,9 @@ func (f *fn) assigned(n ast.Node) []string {
 		case *ast.AssignStmt:
 			if len(s.Rhs) == 1 {
 				if c, ok := s.Rhs[0].(*ast.CallExpr); ok {
+					if _, free := f.t.freeStmt[strings.Join(strings.Fields(f.src(c.Fun)), "")]; free {
+						return true // the results of an uninterpreted call are not followed
+					}
 					if sel, ok := c.Fun.(*ast.SelectorExpr); ok {
 						if rt := f.typeOf(sel.X); rt != nil && isBuffer(rt) && sel.Sel.Name == "Read" {
 							note(sel.X)
@@ -1653,6 +1683,14 @@ func (f *fn) block(list []ast.Stmt, k cont) string {
 		}
 		return sb.String() + next()
 	case *ast.AssignStmt:
+		if len(st.Rhs) == 1 {
+			if c, ok := st.Rhs[0].(*ast.CallExpr); ok {
+				if _, ok := f.t.freeStmt[strings.Join(strings.Fields(f.src(c.Fun)), "")]; ok {
+					// `x, _ = callee(args)` where the call is left uninterpreted and its results are not followed: as a call statement
+					return f.block(append([]ast.Stmt{&ast.ExprStmt{X: c}}, rest...), k)
+				}
+			}
+		}
 		if len(st.Lhs) == 1 && len(st.Rhs) == 1 {
 			if c, ok := st.Rhs[0].(*ast.CallExpr); ok {
 				ctext := strings.Join(strings.Fields(f.src(c.Fun)), "")
@@ -2146,10 +2184,13 @@ func (f *fn) freeCall(c *ast.CallExpr) (string, bool) {
 		if id, ok := a.(*ast.Ident); ok && f.recv != nil && f.p.info.Uses[id] == f.recv {
 			continue // the connection itself handed to a callback
 		}
+		if id, ok := a.(*ast.Ident); ok && id.Name == "nil" {
+			continue
+		}
 		if _, isFn := f.typeOf(a).Underlying().(*types.Signature); isFn {
 			continue // a method value handed on (c.dispatch)
 		}
-		if path, ok := f.pathOf(a); ok { // a struct passed by value: its fields, in declaration order
+		if path, ok := f.pathOf(a); ok && isStructType(f.typeOf(a)) { // a struct passed by value: its fields, in declaration order
 			t := f.typeOf(a)
 			if pt, ok := t.Underlying().(*types.Pointer); ok {
 				t = pt.Elem()
@@ -2286,7 +2327,7 @@ func (f *fn) ifStmt(st *ast.IfStmt, next cont) string {
 	if st.Else != nil {
 		elseList = []ast.Stmt{st.Else}
 	}
-	if hasReturn(st.Body) || (st.Else != nil && hasReturn(st.Else)) {
+	if hasReturn(st.Body) || (st.Else != nil && hasReturn(st.Else)) || f.hasFreeStmt(st) {
 		fmt.Fprintf(&sb, "if %s then\n%s\nelse\n%s", cond, indent(f.block(st.Body.List, next)), indent(f.block(elseList, next)))
 		return sb.String()
 	}
